@@ -53,8 +53,6 @@ HANG_BUDGET = 12           # once that many calls had to be interrupted in a pha
 # proposed_fixes/C08-*.diff applied (used to try the fixes; flip the defaults when they are committed)
 _FIXED = os.environ.get("VERIF_C08_MODEL") != "prefix"      # the two defects are repaired in /repo (dac0793, 1bcc148)
 MODEL_CONSTANTS = "  PoisonedCache = %s\n  TocGuarded = %s\n" % (("FALSE", "TRUE") if _FIXED else ("TRUE", "FALSE"))
-# deviation summary-fallback-marks-source (open finding): VERIF_C08_SUMSRC=fixed describes the tree with the proposed fix
-MODEL_CONSTANTS += "  SummaryMarksSource = %s\n" % ("FALSE" if os.environ.get("VERIF_C08_SUMSRC") == "fixed" else "TRUE")
 
 
 class Injected(Exception):
@@ -626,7 +624,7 @@ def judge(tr: Dict[str, Any]) -> List[str]:
 
 def _explained(w: Dict[str, Any]) -> Optional[set]:
     """Which known deviations account for EVERY offending event of the witness (None: something else is wrong)."""
-    if not set(w.get("failed") or ["?"]) <= {"AlwaysResult", "FallbackComplete", "Frame"}:
+    if not set(w.get("failed") or ["?"]) <= {"AlwaysResult", "FallbackComplete"}:
         return None
     tr = w.get("trace") or {}
     inherit = bool(tr.get("inherit"))
@@ -645,18 +643,8 @@ def _explained(w: Dict[str, Any]) -> Optional[set]:
                 return None
             elif (f["parse"] in ("fatal", "crash") or (f["tostan"] == "raises" and e["st"]["pd"][e["o"]] == "parsed")) and e["r"] != "plainfull":
                 return None
-    if "Frame" in (w.get("failed") or []):
-        if not tr.get("frame_ok", True) or not tr.get("x_same", True):
-            return None
-        offs = frame_offences(tr)
-        if not offs or any(off != ("V", "A", "ps") for off in offs):
-            return None
-        need.add("sumsrc")
-    for a in tr.get("aux", []):
-        if a["r"] == "escaped" and a["call"] == "type2stan" and a["exc"].startswith("NotImplementedError"):
-            need.add("type2stan")
-        elif a["r"] != "ok":
-            return None
+    if any(x["r"] != "ok" for x in tr.get("aux", [])):
+        return None
     return need or None
 
 
@@ -672,19 +660,6 @@ def kf_poisoned_cache(w: Dict[str, Any]) -> bool:
     document of an epytext docstring whose to_node() had failed (unreported) in get_summary / get_toc before."""
     need = _explained(w)
     return need == {"cache"}
-
-
-def kf_summary_marks_source(w: Dict[str, Any]) -> bool:
-    """Python twin of Docstring.tla FrameOrKF: the only frame offence is the summary of the parent class A replaced by
-    'Broken description' when the summary of its field-documented attribute V failed to render."""
-    need = _explained(w)
-    return need is not None and "sumsrc" in need
-
-
-def kf_type2stan(w: Dict[str, Any]) -> bool:
-    """type2stan(attribute) lets NotImplementedError escape: the fallback of safe_to_stan calls ParsedTypeDocstring.to_node()."""
-    need = _explained(w)
-    return need is not None and "type2stan" in need
 
 
 # ---------------------------------------------------------------------------------------- docstrings
@@ -889,7 +864,7 @@ INVARIANT ReportedWhenFailed
 INVARIANT ReportedWhenRenderFails
 INVARIANT OneReport
 INVARIANT SummaryAlways
-PROPERTY FrameOrKF
+PROPERTY Frame
 PROPERTY SourceParseUntouched
 """
 
@@ -908,7 +883,7 @@ INVARIANT ReportedWhenFailed
 INVARIANT ReportedWhenRenderFails
 INVARIANT OneReport
 INVARIANT SummaryAlways
-PROPERTY FrameOrKF
+PROPERTY Frame
 """
 
 
@@ -942,8 +917,6 @@ def run(ctx: Ctx) -> int:
     rng = random.Random(ctx.seed)
     ctx.register_matcher("format-toc-unguarded", kf_toc_escapes)
     ctx.register_matcher("epytext-half-built-document-cached", kf_poisoned_cache)
-    ctx.register_matcher("summary-fallback-marks-source", kf_summary_marks_source)
-    ctx.register_matcher("type2stan-fallback-not-implemented", kf_type2stan)
     nproc = max(2, min(NCPU, 16))
     all_traces: List[Dict[str, Any]] = []
 
